@@ -189,6 +189,29 @@ def r14b(ctx):
     ctx.check(okt, 'R14b', TASK, 'xorb_bytes_uploaded', at.loc(ups[0][0], ups[0][1]) if ups else '-', 'the task adds exactly the byte count returned by put to xorb_bytes_uploaded')
     # shard bytes / total
     sb = a.stores_to_field('shard_bytes_uploaded')
+    if not sb and not a.stores_to_field('total_bytes_uploaded'):
+        # struct-update form: `DeduplicationMetrics { shard_bytes_uploaded: s, total_bytes_uploaded: s + snap.xorb_bytes_uploaded, ..snap }`
+        aggs = []
+        for b_ in sorted(a.cfg.reach0):
+            for si_, st_ in enumerate(a.blocks[b_]['s']):
+                r_ = st_.get('r')
+                if r_ and r_['k'] == 'agg' and r_.get('adt') == METRICS:
+                    aggs.append((b_, si_, a.flow.rvalue(r_, 0)))
+        if ctx.check(len(aggs) == 1, 'R14b', fn, 'shard_bytes_uploaded', '-', 'one construction of the final metrics value (struct-update form)'):
+            b_, si_, e_ = aggs[0]
+            c_ = dict(e_[3])
+            s_, t_, x_ = c_.get('shard_bytes_uploaded'), c_.get('total_bytes_uploaded'), c_.get('xorb_bytes_uploaded')
+            oks_ = s_ is not None and a.root_call(s_) is not None and a.root_call(s_)[1].endswith('upload_and_register_session_shards')
+            ctx.check(oks_, 'R14b', fn, 'shard_bytes_uploaded', a.loc(b_, si_), 'shard_bytes_uploaded originates from ret(upload_and_register_session_shards)')
+            okt_ = (t_ is not None and t_[0] == 'bin' and t_[1] in ('Add', 'AddO') and x_ is not None and x_[0] == 'field' and x_[2] == 'xorb_bytes_uploaded'
+                    and ((flow.eqv(t_[2], s_) and flow.eqv(t_[3], x_)) or (flow.eqv(t_[3], s_) and flow.eqv(t_[2], x_))))
+            ctx.check(okt_, 'R14b', fn, 'total_bytes_uploaded', a.loc(b_, si_), 'total_bytes_uploaded = shard_bytes_uploaded + xorb_bytes_uploaded of the same snapshot')
+            # every other field is carried over from the snapshot, which is the take that flows to the return
+            snap = x_[1] if x_ is not None and x_[0] == 'field' else None
+            okc_ = snap is not None and all(v == ('field', snap, k) for k, v in c_.items() if k not in ('shard_bytes_uploaded', 'total_bytes_uploaded'))
+            ctx.check(okc_ and any(a.rooted_at(snap, tk) for tk in takes), 'R14b', fn, 'carried fields', a.loc(b_, si_), 'all other fields are those of the snapshot taken from the session metrics')
+            ctx.check(bool(none_edges) and a.cfg.must_pass(b_, via_edges=none_edges), 'R14b', fn, 'total_bytes_uploaded.order', a.loc(b_, si_), 'total_bytes_uploaded is computed after all upload tasks were joined')
+        return
     ok = len(sb) == 1 and a.root_call(a.flow.rvalue(sb[0][2]['r'], 0)) is not None and a.root_call(a.flow.rvalue(sb[0][2]['r'], 0))[1].endswith('upload_and_register_session_shards')
     ctx.check(ok, 'R14b', fn, 'shard_bytes_uploaded', a.loc(sb[0][0], sb[0][1]) if sb else '-', 'shard_bytes_uploaded originates from ret(upload_and_register_session_shards)')
     tb = a.stores_to_field('total_bytes_uploaded')
